@@ -76,7 +76,9 @@ Verdict(r) ==
   IF r.viewanom # <<>> THEN <<"C06:" \o r.viewanom[1]>> ELSE
   IF r.postanom # <<>> THEN <<"tainted">> ELSE
   LET S == FromJ(r.post) IN
-  IF ~Integrity(S) THEN <<"tainted">>
+  \* an inconsistent network is some mutator's fault (C01-C03), but C06's own statement "the degrees sum to
+  \* the sizes" speaks of every reachable state and needs no reference to the tables
+  IF ~Integrity(S) THEN (IF SumSeq(r.obs.degl) = SumSeq(r.obs.sizel) THEN <<"tainted">> ELSE <<"C06:degrees-do-not-sum-to-sizes">>)
   ELSE LET cl == Clauses(S, r.obs)
            bad == SelectSeq([k \in DOMAIN cl |-> k], LAMBDA k : ~cl[k][2])
        IN [k \in DOMAIN bad |-> "C06:" \o cl[bad[k]][1]]
